@@ -36,6 +36,7 @@ type model struct {
 	Expect  []string            `json:"expect"`  // failure signatures the engine predicts (informational)
 	ObsWant []string            `json:"obs"`     // observation stream the engine predicts (informational)
 	Gate    []string            `json:"gate"`    // order in which gated goroutines must proceed (schedule replay)
+	Sync    []syncEvent         `json:"sync"`    // acquire-type operations in scheduler order (steered replay builds only)
 	ByteRanks map[string]uint64 `json:"byte_ranks"` // order of opaque byte strings (public keys) chosen by the solver
 }
 
@@ -296,6 +297,9 @@ func Gate(key string) {
 		order = mdl.Gate
 	}
 	mu.Unlock()
+	if Steering() {
+		return // the lock-level schedule supersedes the gates
+	}
 	if len(order) == 0 {
 		return
 	}
